@@ -18,13 +18,16 @@ def C(*a, **k):
     return c
 
 
-C(TF + ".mtime", params=SELF, result="int", kind="axiom",
-  notes="external: modification time of the file (uninterpreted; floats compared only for equality)")
-C(TF + ".read", params=SELF, result="str", kind="axiom",
-  notes="external: current content of the file")
+C(TF + ".mtime", params=SELF, result="int", kind="axiom", raises={'Exception': {}},
+  notes="external: modification time of the file (uninterpreted; floats compared only for equality); "
+        "may fail (package resources)")
+C(TF + ".read", params=SELF, result="str", kind="axiom", raises={'Exception': {}},
+  notes="external: current content of the file; may fail (I/O, decoding)")
 C(TF + ".cook", params={"self": "rec[%s]" % TF, "body": "str"},
   modifies=["self._cooked"], ensures=["self._cooked"], kind="assumed-here",
-  notes="BaseTemplate.cook sets _cooked last (verified separately: cook.publication_order)")
+  raises={'Exception': {'ensures': ["self._cooked == old(self._cooked)"]}},
+  notes="BaseTemplate.cook sets _cooked last and nowhere else (verified separately: "
+        "cook.publication_order), so a failing compilation leaves the flag as it was")
 
 C(TF + ".cook_check", params=SELF,
   ensures=[
@@ -44,6 +47,14 @@ C(TF + ".cook_check", params=SELF,
       "self._v_last_read == call_result('mtime', 0))",
       "self.auto_reload or called('mtime') == 0",
   ],
+  raises={'Exception': {'ensures': [
+      # a reload that fails part-way (unreadable file, content that does not compile) must not leave
+      # the instance looking up to date: either it is marked uncompiled -- the next use retries and
+      # fails again -- or nothing was recorded at all
+      "not self._cooked or (old(self._cooked) and self._v_last_read == old(self._v_last_read))",
+  ]}},
+  ghost={'harness': ('bounded.cookcheck_harness', 'cook_check'),
+         'search': {'generator': ('bounded.cookcheck_harness', 'gen_cases')}},
   result="bool", serves=["C16"])
 
 
